@@ -80,7 +80,7 @@ pub fn full_hex() -> bool {
 pub fn show_bytes(b: &[u8]) -> String {
     if b.is_empty() {
         ".".into()
-    } else if b.len() <= 48 || full_hex() {
+    } else if b.len() <= 200 || full_hex() {
         hex(b)
     } else {
         format!("{}#{}:{:016x}", hex(&b[..16]), b.len(), fnv64(b))
